@@ -535,6 +535,16 @@ def mixed_check(ctx):
                    rule="seeded random histories (profile %s) executed on the real broker; every step judged by TLC with Enforce=%s; distinct_nontrivial = distinct (op kind x packets written) classes" % (pid, MIXED_ENFORCE.get(pid, [pid])),
                    samples=sample_ops(traces), complaints=len(comp))
 
+    if pid == "C38":
+        # the connected-clients counter along schedules of the connection life cycle (spec/Attach.tla), including connections
+        # that end before their CONNACK could be written
+        from families import attach
+        a = attach.attach_part(ctx, pid)
+        ctx.cov["traces_validated_against_impl"] += a["schedules"]
+        ctx.cov["evaluations"] += a["steps"]
+        ctx.cov["distinct_nontrivial"] += a["windows"]
+        ctx.cov["rule"] += ("; PLUS %d connection life-cycle schedules (Attach.tla) forced on the real broker, %d steps: whenever every handler is at rest, "
+                            "Info.ClientsConnected equals the number of handlers in their read loop" % (a["schedules"], a["steps"]))
 
 def c19_check(ctx):
     pid = "C19"
